@@ -81,3 +81,8 @@ pub fn peak() -> (usize, usize) {
         BIGGEST.with(|b| b.get()),
     )
 }
+
+/// Net bytes allocated minus freed on this thread since `mark`.
+pub fn net() -> isize {
+    CUR.with(|c| c.get())
+}
